@@ -165,8 +165,10 @@ def gen_case(ctx):
     patch_names = sorted({n for op in ops for n in op["patches"].values()})
     modify = []
     for n in patch_names:
-        if rng.random() < 0.3:
-            modify.append([n, rng.choice(["wall", "cyclic", "empty"]), rng.choice([None, ["inGroups (a b)"], ["neighbourPatch x", "transform none"]])])
+        for _ in range(rng.choice([0, 0, 1, 1, 2])):  # a patch can be modified more than once: the last call counts
+            modify.append([n, rng.choice(["wall", "cyclic", "empty"]),
+                           rng.choice([None, [], ["inGroups (a b)"], ["neighbourPatch x", "transform none"]])])
+    rng.shuffle(modify)
     settings = {}
     if rng.random() < 0.4:
         settings["scale"] = rng.choice([0.001, 2, 1])
@@ -404,7 +406,11 @@ def run_case(ctx, case):
             ctx.count("judged:patch-quad")
             if not quad_ok(q, "patch"):
                 return
-    mods = {m[0]: m for m in case["modify"]}
+    mods = {}
+    for nm, kind_, st in case["modify"]:
+        # type: last call; settings: last call that gave a list (None = leave as they are, [] = none)
+        prev = mods.get(nm, [nm, "patch", []])
+        mods[nm] = [nm, kind_, prev[2] if st is None else st]
     for name, quads in exp_patches.items():
         if name not in got_patches:
             ctx.violation("patch-missing", f"patch {name} declared on {len(quads)} sides, not written")
